@@ -298,7 +298,9 @@ func (e *env) runQueue() string {
 			if len(answered) == len(bs) {
 				return pieces, rejects, ""
 			}
-			if !wantAll && time.Since(lastAnswer) > time.Duration(3*c.ReadMs+400)*time.Millisecond {
+			// without the fast extension over-limit requests are dropped silently: stop when the guaranteed part has
+			// arrived and nothing more came for a while (never on silence alone - a loaded machine is slow, not wrong)
+			if !wantAll && pieces >= min(len(bs), c.Q) && time.Since(lastAnswer) > time.Duration(3*c.ReadMs+400)*time.Millisecond {
 				return pieces, rejects, ""
 			}
 			if p.Closed() {
@@ -638,7 +640,7 @@ func (e *env) runAccept() string {
 	}
 	wg.Wait()
 	// handshake timeout plus slack
-	time.Sleep(e.cfg.PeerHandshakeTimeout + 1200*time.Millisecond)
+	time.Sleep(e.cfg.PeerHandshakeTimeout + 2200*time.Millisecond)
 	close(stopSample)
 	swg.Wait()
 	defer func() {
@@ -669,7 +671,7 @@ func (e *env) runAccept() string {
 	if len(kept) > 0 {
 		st := e.tor.Stats()
 		return fmt.Sprintf("%v after they were opened (handshake timeout %v) the client still holds open %d connections whose handshake failed or never happened: %v (accept limit %d; client counts %d peers, %d handshakes)",
-			e.cfg.PeerHandshakeTimeout+1200*time.Millisecond, e.cfg.PeerHandshakeTimeout, len(kept), kept, c.Limit, st.Peers.Incoming, st.Handshakes.Incoming)
+			e.cfg.PeerHandshakeTimeout+2200*time.Millisecond, e.cfg.PeerHandshakeTimeout, len(kept), kept, c.Limit, st.Peers.Incoming, st.Handshakes.Incoming)
 	}
 	if goodOpen > c.Limit {
 		return fmt.Sprintf("%d handshaked incoming connections are open, the accept limit is %d", goodOpen, c.Limit)
